@@ -199,18 +199,7 @@ func newIncarnation(st *qstore.Store, consumers int, auto bool, capacity int64, 
 		if err != nil {
 			return nil, fmt.Errorf("%w: %v", errStart, err)
 		}
-	case <-st.DeadCh():
-		// the simulated process died inside Start: whatever the code does from here on (every storage call now fails)
-		// happens after its death and is nobody's concern; give the call a moment to come back, then leave it behind
-		select {
-		case <-started:
-		case <-time.After(2 * time.Second):
-		}
-		return nil, fmt.Errorf("%w: the process died during Start", errStart)
 	case <-tm.C:
-		if st.Dead() {
-			return nil, fmt.Errorf("%w: the process died during Start", errStart)
-		}
 		buf := make([]byte, 1<<20)
 		buf = buf[:runtime.Stack(buf, true)]
 		return nil, fmt.Errorf("%w: %s", errStartStuck, strings.Join(driver.BlockedRepoFrames(string(buf)), "; "))
